@@ -29,6 +29,7 @@ extern int fs_faults_enabled;           /* harness: allow open/pwrite failures *
 extern int fs_fail_pwrite_from;         /* persistent failure from this pwrite index (-1: none) */
 extern int fs_fail_pwrite_at;           /* one-shot failure at this pwrite index (-1: none) */
 extern int fs_fail_open_at;             /* open call index that fails (-1: none) */
+extern int fs_fail_flock_at;            /* flock call index that fails (-1: none) */
 extern int fs_short_writes_enabled;
 void fs_reset(void);
 /* harness-provided: called for every pwrite on an owned descriptor that is not failed by fault
